@@ -2,6 +2,7 @@ package main
 
 import (
 	"fmt"
+	"strings"
 	"net/http"
 	"net/http/httptest"
 	"net/url"
@@ -10,6 +11,7 @@ import (
 	"github.com/vulcand/oxy/v2/memmetrics"
 	"github.com/vulcand/oxy/v2/roundrobin"
 	"github.com/vulcand/oxy/v2/roundrobin/stickycookie"
+	"github.com/vulcand/oxy/v2/verifhook"
 )
 
 // urlTable concretises abstract servers [k, v]: k fixes (scheme, host, path) -
@@ -140,27 +142,51 @@ func (h *scriptHandler) ServeHTTP(w http.ResponseWriter, req *http.Request) {
 	w.WriteHeader(h.status)
 }
 
-func newCookieValue(kind string) stickycookie.CookieValue {
+func newCookieValueKey(kind string, alt bool) stickycookie.CookieValue {
+	key, salt := []byte("95Bx9JkKX3xbd7z3"), "pepper"
+	if alt {
+		key, salt = []byte("0therKey0therKey"), "salt2"
+	}
 	switch kind {
 	case "raw", "":
 		return &stickycookie.RawValue{}
 	case "hash":
-		return &stickycookie.HashValue{Salt: "pepper"}
+		return &stickycookie.HashValue{Salt: salt}
 	case "aes":
-		v, err := stickycookie.NewAESValue([]byte("95Bx9JkKX3xbd7z3"), 0)
+		v, err := stickycookie.NewAESValue(key, 0)
 		if err != nil {
 			fatal("aes: %v", err)
 		}
 		return v
 	case "aesttl":
-		v, err := stickycookie.NewAESValue([]byte("95Bx9JkKX3xbd7z3"), 60*time.Second)
+		v, err := stickycookie.NewAESValue(key, stickyTTL)
 		if err != nil {
 			fatal("aes: %v", err)
 		}
 		return v
 	}
+	if strings.HasPrefix(kind, "fb:") {
+		parts := strings.SplitN(strings.TrimPrefix(kind, "fb:"), ">", 2)
+		v, err := stickycookie.NewFallbackValue(newCookieValueKey(parts[0], alt), newCookieValueKey(parts[1], alt))
+		if err != nil {
+			fatal("fallback: %v", err)
+		}
+		return v
+	}
 	fatal("unknown cookie kind %q", kind)
 	return nil
+}
+
+const stickyTTL = 60 * time.Second
+
+func newCookieValue(kind string) stickycookie.CookieValue { return newCookieValueKey(kind, false) }
+
+// codecParts lists the simple codecs of a configuration (one, or from/to of a chain).
+func codecParts(kind string) []string {
+	if strings.HasPrefix(kind, "fb:") {
+		return strings.SplitN(strings.TrimPrefix(kind, "fb:"), ">", 2)
+	}
+	return []string{kind}
 }
 
 func newRRSubject(cfg M, seed int64) *rrSubject {
@@ -244,12 +270,28 @@ func runRR(sc Scenario, tr *Trace, seed int64) {
 	s := newRRSubject(sc.Cfg, seed)
 	cfg := M{"subject": strOr(sc.Cfg, "subject", "rr"), "sticky": strOr(sc.Cfg, "sticky", "")}
 	tr.Emit(M{"e": "Reset", "scn": sc.ID, "cfg": cfg})
-	var jar *http.Cookie
-	jarKey := ""
+	type minted struct {
+		value string
+		key   string
+		at    time.Time
+		by    string // simple codec that minted it
+	}
+	var jar *minted
+	perKey := map[string]*minted{}
+	sticky := strOr(sc.Cfg, "sticky", "")
+	parts := codecParts(sticky)
+	mintBy := parts[len(parts)-1]
+	varOf := map[string]int{}
 	for _, st := range sc.Steps {
 		switch str(st, "op") {
+		case "adv":
+			advance(time.Duration(num(st, "d")) * time.Second)
 		case "upsert":
 			k, v, w := str(st, "k"), numOr(st, "v", 0), numOr(st, "w", -1)
+			if pv, ok := varOf[k]; ok && boolOr(st, "keepvar", false) {
+				v = pv
+			}
+			varOf[k] = v
 			err := s.upsert(s.tab.url(k, v), w)
 			tr.Emit(M{"e": "Upsert", "k": k, "v": v, "w": w, "err": err != nil, "members": s.members()})
 		case "remove":
@@ -269,20 +311,88 @@ func runRR(sc Scenario, tr *Trace, seed int64) {
 			s.h.mut = strOr(st, "mut", "none")
 			s.h.status = numOr(st, "hstatus", 200)
 			req := httptest.NewRequest(http.MethodGet, "http://front.example.com/some/path?z=1", nil)
-			ck := ""
-			if strOr(st, "cookie", "none") == "jar" && jar != nil {
-				req.AddCookie(&http.Cookie{Name: jar.Name, Value: jar.Value})
-				ck = jarKey
+			// which cookie does the client present, and is it one this configuration must honour?
+			spec := strOr(st, "cookie", "none")
+			if spec == "jar" {
+				spec = "issued"
+			}
+			var src *minted
+			switch {
+			case spec == "none":
+			case strings.HasPrefix(spec, "for:"):
+				src = perKey[strings.TrimPrefix(spec, "for:")]
+			case strings.HasPrefix(spec, "old:"): // issued earlier by the 'from' codec of a fallback chain
+				k := strings.TrimPrefix(spec, "old:")
+				if len(parts) == 2 && s.tab.base[k][1] != "" {
+					src = &minted{value: newCookieValue(parts[0]).Get(s.tab.url(k, varOf[k])), key: k, at: verifhook.Now(), by: parts[0]}
+				}
+			case strings.HasPrefix(spec, "otherkey"):
+				if jar != nil {
+					src = &minted{value: newCookieValueKey(sticky, true).Get(s.tab.url(jar.key, varOf[jar.key])), key: jar.key, at: verifhook.Now(), by: "foreign"}
+				}
+			default:
+				src = jar
+			}
+			ck, ckfree, value := "", false, ""
+			if spec == "garbage" {
+				value = "Zm9v!!not-a-cookie"
+			} else if src != nil {
+				value = src.value
+				valid := src.by != "foreign"
+				switch spec {
+				case "trunc":
+					if len(value) > 3 {
+						value = value[:len(value)-3]
+					}
+					valid = false
+				case "flip":
+					i := len(value) / 2
+					c := byte('A')
+					if value[i] == 'A' {
+						c = 'B'
+					}
+					value = value[:i] + string(c) + value[i+1:]
+					valid = false
+				case "reenc":
+					value = strings.ToUpper(value)
+					valid, ckfree = false, true
+				}
+				hasRaw := false
+				for _, p := range parts {
+					hasRaw = hasRaw || p == "raw" || p == ""
+				}
+				if hasRaw && (spec == "trunc" || spec == "flip" || strings.HasPrefix(spec, "otherkey")) {
+					ckfree = true // an unauthenticated value may still name a member
+				}
+				if valid && src.by == "aesttl" {
+					exp := src.at.Add(stickyTTL)
+					now := verifhook.Now()
+					if now.After(exp) {
+						valid = false
+					} else if now.Equal(exp) {
+						ckfree = true
+					}
+				}
+				if valid && !ckfree {
+					ck = src.key
+				}
+			}
+			if value != "" && sticky != "" {
+				req.AddCookie(&http.Cookie{Name: "oxysession", Value: value})
 			}
 			rec := httptest.NewRecorder()
 			s.handler().ServeHTTP(rec, req)
+			setcookie := false
 			for _, c := range rec.Result().Cookies() {
 				if c.Name == "oxysession" {
-					jar, jarKey = c, s.h.k
+					setcookie = true
+					jar = &minted{value: c.Value, key: s.h.k, at: verifhook.Now(), by: mintBy}
+					perKey[s.h.k] = jar
 				}
 			}
 			tr.Emit(M{"e": "Serve", "status": rec.Code, "hstatus": s.h.status, "invoked": s.h.invoked == 1,
-				"ninvoked": s.h.invoked, "k": s.h.k, "v": s.h.v, "mut": s.h.mut, "ck": ck, "members": s.members()})
+				"ninvoked": s.h.invoked, "k": s.h.k, "v": s.h.v, "mut": s.h.mut, "ck": ck, "ckfree": ckfree,
+				"cookie": spec, "setcookie": setcookie, "sticky": sticky, "members": s.members()})
 		default:
 			fatal("rr: unknown op %v", st)
 		}
